@@ -201,7 +201,7 @@ func drawTerm(l layer, outline string) string {
 		joinTerm(s.StrokeJoiner), cq.F(s.DashOffset), cq.List(ds), cq.Bool(s.FillRule == canvas.EvenOdd))
 	g, _ := pathGeo(l.path.Copy().Transform(l.m))
 	k := math.Sqrt(math.Abs(l.m.Det()))
-	return fmt.Sprintf("(mkDraw %s %s %s %s %s)", st, cq.Bool(l.m.IsSimilarity()), cq.F(k), g, outline)
+	return fmt.Sprintf("(mkDraw %s %s %s %s %s)", st, cq.Bool(isSimilarity(l.m)), cq.F(k), g, outline)
 }
 
 // ---------------------------------------------------------------------------------------------------------
@@ -651,6 +651,15 @@ func genPath(r *rng.R) *canvas.Path {
 	return p
 }
 
+// isSimilarity is the harness's own classification of a view (rows of the linear part orthogonal and of equal length); the
+// generated views are far from the border line
+func isSimilarity(m canvas.Matrix) bool {
+	a := m[0][0]*m[0][0] + m[0][1]*m[0][1]
+	b := m[1][0]*m[1][0] + m[1][1]*m[1][1]
+	c := m[0][0]*m[1][0] + m[0][1]*m[1][1]
+	return math.Abs(a-b) <= 1e-9*math.Max(a, b) && math.Abs(c) <= 1e-9*math.Max(a, b)
+}
+
 func genView(r *rng.R) (canvas.Matrix, string) {
 	rots := [][2]float64{{1, 0}, {0.6, 0.8}, {0, 1}, {-0.8, 0.6}, {5.0 / 13, 12.0 / 13}, {-1, 0}}
 	rot := func(m canvas.Matrix) canvas.Matrix {
@@ -658,9 +667,13 @@ func genView(r *rng.R) (canvas.Matrix, string) {
 		return m.Mul(canvas.Matrix{{cs[0], -cs[1], 0}, {cs[1], cs[0], 0}})
 	}
 	m := canvas.Identity.Translate(float64(r.Range(20, 60)), float64(r.Range(20, 60)))
-	switch r.Intn(8) {
+	switch r.Intn(9) {
 	case 0:
 		return m, "translate"
+	case 8:
+		// a diagonal rotation after a non-uniform scale: rows of equal length, columns orthogonal, not a similarity
+		m = m.Rotate(rng.Pick(r, []float64{45, 135, 225, 315})).Scale(rng.Pick(r, []float64{2, 0.5, 3}), rng.Pick(r, []float64{1, 1.5, -1}))
+		return m, "rotate45+nonuniform"
 	case 1:
 		return m.Scale(rng.Pick(r, []float64{0.5, 2, 1.5, 0.25}), 1).Scale(1, 1), "nonuniform"
 	case 2:
